@@ -318,6 +318,11 @@ func (bridge *ExprBridge) isStringConcatenationExpression(expression string, dat
 
 // fallbackToCustomExpr 回退到自定义表达式系统
 func (bridge *ExprBridge) fallbackToCustomExpr(expression string, data map[string]any) (any, error) {
+	// SQL NULL propagation: arithmetic over a NULL column is NULL. Without this the
+	// string-concatenation fallback below turns `a + b` with b = NULL into the text of a.
+	if !bridge.isStringConcatenationExpression(expression, data) && hasNullOperand(expression, data) {
+		return nil, nil
+	}
 	// 尝试处理字符串拼接表达式
 	result, err := bridge.evaluateStringConcatenation(expression, data)
 	if err == nil {
@@ -331,6 +336,31 @@ func (bridge *ExprBridge) fallbackToCustomExpr(expression string, data map[strin
 	}
 
 	return nil, fmt.Errorf("unable to evaluate expression: %s, string concat error: %v, numeric error: %v", expression, err, err)
+}
+
+var (
+	identifierPattern      = regexp.MustCompile(`[A-Za-z_][A-Za-z0-9_]*`)
+	plainArithmeticPattern = regexp.MustCompile(`^[\sA-Za-z0-9_.+\-*/%()]+$`)
+)
+
+// hasNullOperand reports whether the expression is plain arithmetic over columns of
+// the row (no functions, keywords or literals other than numbers) and one of those
+// columns is NULL.
+func hasNullOperand(expression string, data map[string]any) bool {
+	if !plainArithmeticPattern.MatchString(expression) {
+		return false
+	}
+	null := false
+	for _, id := range identifierPattern.FindAllString(expression, -1) {
+		v, ok := data[id]
+		if !ok {
+			return false
+		}
+		if v == nil {
+			null = true
+		}
+	}
+	return null
 }
 
 // evaluateStringConcatenation 处理字符串拼接表达式
